@@ -10,6 +10,7 @@ package c12
 import (
 	"encoding/json"
 	"fmt"
+	"regexp"
 	"strings"
 
 	"github.com/openconfig/goyang/pkg/yang"
@@ -89,7 +90,67 @@ func check(w *ir.World, allOrders bool) (*fail, int) {
 	if pan {
 		return &fail{"panic@" + core.LastPanicSite, "no panic", pt}, execs
 	}
+	if f == nil {
+		f = twin(w)
+		execs++
+	}
 	return f, execs
+}
+
+var moduleName = regexp.MustCompile(`\b(module|submodule|import|belongs-to|include) ([A-Za-z_][A-Za-z0-9_.-]*)( \{|;)`)
+
+// twin loads the same texts once more, in the same process, with every module and submodule renamed
+// (prefixes and namespaces stay): in that set the namespaces belong to modules of other names, and
+// every node must be attributed to the module that carries its namespace there - nothing the
+// library learnt about a namespace from another module set may show.
+func twin(w *ir.World) *fail {
+	var f *fail
+	pan, pt := core.Guard(func() {
+		ms := yang.NewModules()
+		for _, fl := range ircmp.Files(w, w.Order) {
+			text := moduleName.ReplaceAllString(fl.Text, "$1 $2-twin$3")
+			if err := ms.Parse(text, "twin-"+fl.Name); err != nil {
+				f = &fail{"twin:load-error", "loads", err.Error()}
+				return
+			}
+		}
+		if errs := ms.Process(); len(errs) > 0 {
+			f = &fail{"twin:process-errors", "no errors", dump.Errors(errs)}
+			return
+		}
+		byNS := map[string]string{}
+		for _, m := range ms.Modules {
+			if m.Namespace != nil {
+				byNS[m.Namespace.Name] = m.Name
+			}
+		}
+		for _, m := range ms.Modules {
+			var walk func(e *yang.Entry)
+			walk = func(e *yang.Entry) {
+				if f != nil || e == nil {
+					return
+				}
+				ns := e.Namespace()
+				im, err := e.InstantiatingModule()
+				if ns == nil || err != nil || im != byNS[ns.Name] {
+					f = &fail{"twin:instantiating-module-of-another-module-set", fmt.Sprintf("%s (the module of namespace %v in this set)", byNS[ns.Name], ns.Name), fmt.Sprintf("%s: %q, %v", e.Path(), im, err)}
+					return
+				}
+				for _, c := range e.Dir {
+					walk(c)
+				}
+				if e.RPC != nil {
+					walk(e.RPC.Input)
+					walk(e.RPC.Output)
+				}
+			}
+			walk(yang.ToEntry(m))
+		}
+	})
+	if pan {
+		return &fail{"twin:panic@" + core.LastPanicSite, "no panic", pt}
+	}
+	return f
 }
 
 const nShards = 24
